@@ -18,6 +18,27 @@ CLAIMED = {
         design="5/C16"),
 }
 
+CLAIMED["C18"] = dict(
+    text="The quantifier is a finite table (164 modules, ~20 500 items): the kernel evaluates the decidable predicate PackModule.OK "
+         "(item addressability Item.WF, key resolution, module naming, refresh window) over the WHOLE table regenerated from the working tree "
+         "(decide +kernel, one obligation per module, assembled into `all_modules_ok`), proves the three known ill-formed items really are ill-formed, "
+         "and proves every module pinned at the audited commit is present field-for-field (`layout_immutable`). Search: independent Python "
+         "re-computation of well-formedness, pin diff item by item, FILES-reply naming for all 895 combinations.",
+    note="Trusted: Lean kernel; harness/packs.py extraction by import (what the library sees after accessor __init__) + ast check for duplicate dict keys; "
+         "pins/layout-236b7b1.json.gz is the layout at the audited commit. The generator input SpaPackStruct.xml is absent: well-formedness is judged on the shipped Python only.",
+    technique="Lean 4 kernel evaluation (decide +kernel) of decidable predicates over the complete regenerated tables",
+    design="5/C18")
+CLAIMED["C02"] = dict(
+    text="Lean 4 theorems for every item satisfying the decidable Item.WF (all shipped items except the 3 of finding D9, by C18's whole-table evaluation), "
+         "every 1024-byte block and every domain value: write-then-read returns the value (read_after_write + per-kind corollaries), only bits of the item's "
+         "own field change (write_touches_only_own_field), items with a disjoint field keep their value (other_items_unchanged), read-only items refuse, "
+         "string forms, and the blocking/awaitable paths emit identical writes. The shift/mask/merge arithmetic is translated from accessor.py on every run; "
+         "type dispatch / labels / time format are a hand model tied by a differential correspondence on the real accessors (thorough: all 20 505 items).",
+    note="Trusted: Lean kernel; translator for the three arithmetic expressions; the correspondence harness; 'applied to the block' = the spa stores struct.pack of the "
+         "value at pos (as the bundled simulator does). Temperature items' unit conversion is C14.",
+    technique="Lean 4 bit-level proofs (Nat.testBit) over source-translated merge arithmetic + differential correspondence of the hand model on all shipped items",
+    design="5/C02")
+
 NOT_YET = {}
 
 ALL = [f"C{i:02d}" for i in range(1, 21)]
